@@ -136,6 +136,18 @@ CHECKS["C07"] = dict(
     design="DESIGN.md §5 C07",
     technique="Coq proof (fold invariants over insertion-ordered dictionaries) + differential correspondence through the real parser")
 
+CHECKS["C08"] = dict(
+    text=("PARTIAL. Proved (pure model of parse()): CopyDecay NEW OLD appends a table for NEW with exactly OLD's lines, leaves every "
+          "other table as it was, and the table list the CDecay pass reads includes the copies (a copy can be a CDecay source). "
+          "The functional model has no object identity, so independence of derived tables and the absence of effects of queries are "
+          "not theorems: they are established by execution on every generated file — separation of the object graph held after "
+          "parse() (no Token/Tree reachable twice), write-through test on copied/conjugated tables, and histories of 1..12 public "
+          "queries with recursive mutation of the returned values compared step by step with a fresh parse and with the model."),
+    design="DESIGN.md §5 C08",
+    technique="Coq proof of the value-level CopyDecay law + executed object-graph separation / query-history comparison (partial)",
+    note=("Trusted/assumed: as the other checks; additionally the sharing-related half of the property rests on the executed checks "
+          "of py/c08.py over generated files, not on a theorem."))
+
 NOT_YET = {
 }
 
